@@ -193,7 +193,7 @@ def run(ctx):
     quick = ctx.tier == "quick"
     rng = ctx.rng
     cases = []
-    seeds = (0, 7) if quick else (0, 1, 7, 4242, 90001)  # the model identifies streams by unary naturals: keep seeds small
+    seeds = (0, 7) if quick else (0, 1, 2, 3, 7, 11, 99, 1234, 4242, 90001)  # the model identifies streams by unary naturals: keep seeds small
     for seed in seeds:
         for N, moves, cap in ((6, ["sh", "sh", "sh"], None), (8, ["sh", "sh", "wf"], 2.5)) if quick else \
                 ((6, ["sh", "sh", "sh"], None), (12, ["sh", "sh", "wf"], 2.5), (12, ["sh", "sh", "wf", "wf"], 3.25), (20, ["sh", "sh"], None)):
@@ -202,12 +202,25 @@ def run(ctx):
                 cases.append((seed, N, moves, cap, (k,), 1, n_intf))
             cases.append((seed, N, moves, cap, (2, 1), 1, n_intf))
             cases.append((seed, N, moves, cap, (1, 2, 1), 1, n_intf))
+            if not quick:
+                for _ in range(4):
+                    parts, left = [], N - 1
+                    while left > 0 and len(parts) < 4:
+                        x = rng.randint(1, left)
+                        parts.append(x)
+                        left -= x
+                    cases.append((seed, N, moves, cap, tuple(parts), 1, n_intf))
         # several workers: re-issued jobs and generator recovery
-        for W in (2, 3):
+        for W in (2, 3) if quick else (2, 3, 4):
             N = W + 6
             for k in (1, 3, N - W):
                 cases.append((seed, N, ["sh"] * (W + 1), None, (k,), W, W + 1))
             cases.append((seed, N, ["sh"] * (W + 1), None, (2, 1, 2), W, W + 1))
+            if not quick:
+                # wire fencing with a cap and several workers
+                mv = ["sh", "sh"] + ["wf"] * (W - 1)
+                for k in (2, 4, N - W):
+                    cases.append((seed, N, mv, len(mv) - 0.5, (k,), W, len(mv)))
     results = H.run_many(case_run, cases, jobs=14, timeout=900)
     for c in cases[:3]:
         ctx.sample({"seed": c[0], "steps": c[1], "moves": c[2], "cap": c[3], "splits": c[4], "workers": c[5]})
